@@ -713,17 +713,25 @@ impl TypeSpace {
             .cloned()
             .map(WrappedValue::new);
         let type_entry = match &mut type_entry.details {
-            // The types that are already named are good to go.
+            // The types that are already named are good to go. Where the
+            // conversion consumed the metadata (structs) it has already
+            // recorded the default; don't discard it.
             TypeEntryDetails::Enum(details) => {
-                details.default = default;
+                if default.is_some() {
+                    details.default = default;
+                }
                 type_entry
             }
             TypeEntryDetails::Struct(details) => {
-                details.default = default;
+                if default.is_some() {
+                    details.default = default;
+                }
                 type_entry
             }
             TypeEntryDetails::Newtype(details) => {
-                details.default = default;
+                if default.is_some() {
+                    details.default = default;
+                }
                 type_entry
             }
 
